@@ -18,8 +18,8 @@ import json, sys
 CTYPE = {"u64": "uint64_t", "i32": "int32_t", "Pt": "struct Pt", "slice": "struct CSliceRef_u8", "ptr": "const uint8_t *", "void": "void"}
 INST_NAME = {"Box": "CBox_c_void", "Mut": "____c_void", "Ref": "_____c_void"}
 INST_FIELD = {"Box": "struct CBox_c_void instance;", "Mut": "void *instance;", "Ref": "const void *instance;"}
-CTX_NAME = {"none": "NoContext", "Arc": "CArc_c_void"}
-CTX_FIELD = {"none": "NoContext context;", "Arc": "struct CArc_c_void context;"}
+CTX_NAME = {"none": "NoContext", "Arc": "CArc_c_void", "gen": "Context"}
+CTX_FIELD = {"none": "NoContext context;", "Arc": "struct CArc_c_void context;", "gen": "Context context;"}
 
 ZST_RETTMP_DOC = """/**
  * Type definition for temporary return value wrapping storage.
@@ -64,7 +64,7 @@ def inst_part(cont):
 
 
 def ctx_part(ctx):
-    return "CArc_c_void___" if ctx == "Arc" else "NoContext"
+    return "CArc_c_void___" if ctx == "Arc" else ("Context" if ctx == "gen" else "NoContext")
 
 
 def obj_container(tr, cont, ctx):
@@ -147,6 +147,23 @@ def render(model):
         for nm in ("InnerGroupContainer_CBox_c_void_____Context", "OtherObjContainer_____c_void__Context"):
             inst = "struct CBox_c_void instance;" if "CBox" in nm else "void *instance;"
             out.append("/**\n * A container generic over its context.\n */\ntypedef struct %s {\n    %s\n    Context context;\n} %s;\n\n" % (nm, inst, nm))
+        # the same single-trait object once more in its context-generic form (next to the concrete one),
+        # plus a further user context type: the tool must expand the generic form for the new context
+        # only and leave the existing concrete definition alone
+        arcs = [o for o in model["objects"] if o["cont"] == "Box" and o["ctx"] == "Arc"]
+        if arcs:
+            tr = arcs[0]["trait"]
+            out.append("typedef struct LibCtx {\n    void *handle;\n} LibCtx;\n\n")
+            for cn in ("Context", "LibCtx"):
+                nm = "%sRetTmp_%s" % (tr, cn)
+                out.append(ZST_RETTMP_DOC + "typedef struct %s %s;\n\n" % (nm, nm))
+            cs = obj_container(tr, "Box", "gen")
+            out.append(CONT_DOC + "typedef struct %s {\n    %s\n    %s\n    struct %sRetTmp_Context ret_tmp;\n} %s;\n\n" % (cs, INST_FIELD["Box"], CTX_FIELD["gen"], tr, cs))
+            vt = "%sVtbl_%s" % (tr, cs)
+            fns = "\n".join("    " + proto(m, cs) for m in traits[tr]["methods"])
+            out.append(VTBL_DOC % tr + "typedef struct %s {\n%s\n} %s;\n\n" % (vt, fns, vt))
+            ot = obj_type(tr, "Box", "gen")
+            out.append(OBJ_DOC + "typedef struct %s {\n    const struct %s *vtbl;\n    struct %s container;\n} %s;\n\n" % (ot, vt, cs, ot))
     out.append("#ifdef __cplusplus\nextern \"C\" {\n#endif // __cplusplus\n\n")
     if foreign:
         out.append("/**\n * An unrelated user function.\n */\nint32_t user_function_Container(struct FooVtbl v, struct BarRetTmp_x w);\n\n")
